@@ -70,3 +70,67 @@ def sqlSave {R : Type} (_table : List R) (row : R) : List R := [row]
 def sqlLoad {R : Type} (table : List R) : Option R := table.head?
 
 end BlackIt.Checkpoint
+
+namespace BlackIt.Checkpoint
+
+/-! ### crash model of the JSON/CSV/HDF5 back-end (C06)
+
+A save touches the five files in a fixed order; each of the four rewritten files is opened with truncation,
+written, closed; the series file is updated in place.  A crash (process death between system calls, or an
+exception) leaves a *prefix* of these operations done. -/
+
+/-- what a file holds after a crash, relative to the previous complete checkpoint and the one being written -/
+inductive FileState where
+  | prev       -- not yet opened: still the previous checkpoint's content
+  | broken     -- truncated / partially written in a way the loader rejects (JSON, pickle, empty CSV, HDF5 mid-update error)
+  | cut        -- partially written but still parseable (a CSV cut at/inside a row, an HDF5 file whose new rows are not yet visible)
+  | done       -- completely written
+  | same       -- previous and new content coincide (e.g. an unchanged loss object): neutral
+  deriving DecidableEq, Repr
+
+inductive Outcome where
+  | error | equalsPrev | equalsNew | hybrid
+  deriving DecidableEq, Repr
+
+/-- what `load_calibrator_state` does with a folder in the given per-file states (file order of `save`:
+params.json, scheduler pickle, loss pickle, results.csv, series.h5) -/
+def restoreOutcome (fs : List FileState) : Outcome :=
+  if fs.any (· == .broken) then .error
+  else if fs.all (fun f => f == .prev || f == .same) then .equalsPrev
+  else if fs.all (fun f => f == .done || f == .same) then .equalsNew
+  else .hybrid
+
+/-- the folder states a crash can produce: the first `i` files complete, file `i` in state `mid`, the rest old -/
+def crashState (nfiles i : Nat) (mid : FileState) : List FileState :=
+  (List.range nfiles).map (fun j => if j < i then .done else if j = i then mid else .prev)
+
+/-! ### SQLite back-end: the save as a transaction -/
+
+structure Db (R : Type) where
+  committed : List R
+  pending : Option (List R)      -- open transaction's view
+
+inductive SqlStmt (R : Type) where
+  | ddl                 -- CREATE TABLE IF NOT EXISTS (auto-commits, changes no row)
+  | delete              -- DELETE FROM checkpoint   (opens the transaction)
+  | insert (row : R)
+  | commit
+
+def sqlStep {R : Type} (db : Db R) : SqlStmt R → Db R
+  | .ddl => db
+  | .delete => { db with pending := some [] }
+  | .insert row => { db with pending := some ((db.pending.getD db.committed) ++ [row]) }
+  | .commit => { committed := db.pending.getD db.committed, pending := none }
+
+/-- the statements of `save_calibrator_state` (repaired order: DELETE inside the transaction) -/
+def sqlSaveStmts {R : Type} (row : R) : List (SqlStmt R) := [.ddl, .delete, .insert row, .commit]
+
+/-- run the save; `failAt = some i` raises at statement `i` (before it takes effect) → `rollback()` -/
+def sqlRun {R : Type} (db : Db R) (stmts : List (SqlStmt R)) (failAt : Option Nat) : Db R :=
+  let n := match failAt with | some i => min i stmts.length | none => stmts.length
+  let db' := (stmts.take n).foldl sqlStep db
+  match failAt with
+  | some _ => { db' with pending := none }       -- rollback
+  | none => db'
+
+end BlackIt.Checkpoint
